@@ -277,7 +277,8 @@ def sc_of_term(ex, t):
         st['atoms'].set(t, g)
         st.setdefault('atomterm', {})[g] = t
         # link the generator with the bit-vector it stands for (the value is reduced by the caller's contract)
-        ex.add(mvar(ex, (g,)) == z3.BV2Int(t) % R)
+        if not getattr(ex, 'galg_unlinked_atoms', False):
+            ex.add(mvar(ex, (g,)) == z3.BV2Int(t) % R)
     return Poly.gen(g)
 
 def byte_atom(ex, b):
